@@ -108,4 +108,157 @@ example : SortedByTime [⟨0,3,0⟩, ⟨3,5,1⟩, ⟨4,8,2⟩, ⟨9,10,3⟩] ∧
     splitArray [⟨0,3,0⟩, ⟨3,5,1⟩, ⟨4,8,2⟩, ⟨9,10,3⟩] 7 true
       = .ok ([⟨0,3,0⟩], [⟨3,5,1⟩, ⟨4,8,2⟩, ⟨9,10,3⟩], 3) := by decide
 
+/-! ## 5. `Chunk.split` -/
+
+/-- a small well-formed chunk used in the non-vacuity examples -/
+def exChunk : Chunk :=
+  ⟨"peaks", "peaks", some "r0", 0, 20, [⟨1,4,0⟩, ⟨3,8,1⟩, ⟨10,12,2⟩], none, [⟨"r0", 0, 20⟩], 2⟩
+
+theorem split_conserves (c : Chunk) (t : Int) (early : Bool) (c1 c2 : Chunk)
+    (hse : c.start ≤ c.stop) (h : c.split t early = .ok (c1, c2)) :
+    c1.rows ++ c2.rows = c.rows ∧ c1.start = c.start ∧ c1.stop = c2.start ∧ c2.stop = c.stop :=
+  split_conserves' hse h
+
+example : exChunk.start ≤ exChunk.stop ∧ ∃ c1 c2, exChunk.split 9 false = .ok (c1, c2) ∧
+    c1.rows = [⟨1,4,0⟩, ⟨3,8,1⟩] ∧ c2.rows = [⟨10,12,2⟩] ∧ c1.stop = 9 := by
+  refine ⟨by decide, ?_⟩
+  cases h : exChunk.split 9 false with
+  | error e => revert h; decide
+  | ok v => obtain ⟨c1, c2⟩ := v; exact ⟨c1, c2, rfl, by revert h; decide⟩
+
+theorem split_separates (c : Chunk) (t : Int) (early : Bool) (c1 c2 : Chunk)
+    (hse : c.start ≤ c.stop) (hs : SortedByTime c.rows) (hin : ∀ x ∈ c.rows, x.endt ≤ c.stop)
+    (h : c.split t early = .ok (c1, c2)) :
+    (∀ x ∈ c1.rows, x.endt ≤ c1.stop) ∧ (∀ x ∈ c2.rows, c2.start ≤ x.time) :=
+  split_separates' hse hs hin h
+
+example : exChunk.start ≤ exChunk.stop ∧ SortedByTime exChunk.rows ∧
+    (∀ x ∈ exChunk.rows, x.endt ≤ exChunk.stop) := by decide
+
+/-- a well-formed chunk (`Chunk.wf`: `0 ≤ start ≤ stop`, rows sorted, positive and inside the
+range) refuses a strict split exactly when a row straddles `t` — for every `t`, including the
+edges and beyond, where `t` is clamped and nothing can straddle. -/
+theorem split_refuses_iff (c : Chunk) (t : Int) (hwf : c.wf = true) :
+    c.split t false = .error .cannotSplit ↔ ∃ r ∈ c.rows, r.straddles t :=
+  split_refuses_iff' hwf
+
+example : exChunk.wf = true ∧ (∃ r ∈ exChunk.rows, r.straddles 5) ∧
+    exChunk.split 5 false = .error .cannotSplit := by decide
+
+/-- the strict split of a good chunk (well-formed, no run annotations) succeeds whenever no row
+straddles `t`, and both halves are good again -/
+theorem split_total (c : Chunk) (t : Int) (hg : c.good = true) (hno : ¬ ∃ r ∈ c.rows, r.straddles t) :
+    ∃ c1 c2, c.split t false = .ok (c1, c2) ∧ c1.good = true ∧ c2.good = true := by
+  obtain ⟨c1, c2, h⟩ := split_good_ok hg hno
+  obtain ⟨_, _, _, _, _, _, _, _, _, _, _, h1, h2⟩ := split_good hg h
+  exact ⟨c1, c2, h, h1, h2⟩
+
+example : exChunk.good = true ∧ ¬ ∃ r ∈ exChunk.rows, r.straddles 9 := by decide
+
+/-! ## 6. `concatenate`, `merge` -/
+
+/-- concatenating the two halves of a split gives back the chunk itself (all fields) -/
+theorem concat_inverse (c : Chunk) (t : Int) (early : Bool) (c1 c2 : Chunk) (hg : c.good = true)
+    (h : c.split t early = .ok (c1, c2)) : concatenate [c1, c2] false = .ok c := by
+  obtain ⟨rid, t', hrid, hst, hts, -, hc1, hc2, hcat, -, -, hg1, hg2⟩ := split_good hg h
+  have e1 : c1.stop = c2.start := by rw [hc1, hc2]
+  have e2 : c1.dataType = c2.dataType := by rw [hc1, hc2]
+  have e3 : c1.runId = c2.runId := by rw [hc1, hc2]
+  obtain ⟨rid', hrid', hcc, -⟩ := concat_good2 hg1 hg2 e1 e2 e3
+  rw [hcc]
+  have hrr : rid' = rid := by
+    rw [hc1] at hrid'
+    simpa using hrid'.symm
+  subst hrr
+  simp only [Chunk.good, Bool.and_eq_true] at hg
+  obtain ⟨hsub, rid'', hrid'', hsup⟩ := (Chunk.simple_iff c).1 hg.2
+  have hrr : rid'' = rid' := by rw [hrid] at hrid''; simpa using hrid''.symm
+  subst hrr
+  have f1 : c1.dataType = c.dataType := by rw [hc1]
+  have f2 : c1.kind = c.kind := by rw [hc1]
+  have f3 : c1.start = c.start := by rw [hc1]
+  have f4 : c2.stop = c.stop := by rw [hc2]
+  have f5 : c1.target = c.target := by rw [hc1]
+  have f6 : c2.target = c.target := by rw [hc2]
+  rw [f1, f2, f3, f4, f5, f6, hcat, Nat.max_self]
+  congr 1
+  cases c
+  simp_all
+
+example : exChunk.good = true ∧ ∃ c1 c2, exChunk.split 6 true = .ok (c1, c2) ∧ c1.stop = 1 := by
+  refine ⟨by decide, ?_⟩
+  cases h : exChunk.split 6 true with
+  | error e => revert h; decide
+  | ok v => obtain ⟨c1, c2⟩ := v; exact ⟨c1, c2, rfl, by revert h; decide⟩
+
+/-- chunks that go back in time or overlap are rejected -/
+theorem concat_rejects_out_of_order (cs : List Chunk) (a : Bool) (hlen : 2 ≤ cs.length)
+    (h : outOfOrder 0 cs = true) : ∃ e, concatenate cs a = .error e :=
+  concat_rejects_order' hlen h
+
+example : outOfOrder 0 [{ exChunk with start := 10, stop := 20 }, { exChunk with start := 5, stop := 10 }] = true ∧
+    concatenate [{ exChunk with start := 10, stop := 20, rows := [] }, { exChunk with start := 5, stop := 10, rows := [] }] false
+      = .error .valueError := by decide
+
+theorem concat_rejects_types (cs : List Chunk) (a : Bool) (hlen : 2 ≤ cs.length)
+    (h : allEq (cs.map (·.dataType)) = false) : concatenate cs a = .error .valueError :=
+  concat_rejects_types' hlen h
+
+example : allEq ([exChunk, { exChunk with dataType := "hits" }].map (·.dataType)) = false := by decide
+
+theorem concat_rejects_runs (cs : List Chunk) (hlen : 2 ≤ cs.length)
+    (h : allEq (cs.map (·.runId)) = false) : concatenate cs false = .error .valueError :=
+  concat_rejects_runs' hlen h
+
+example : allEq ([exChunk, { exChunk with runId := some "r1" }].map (·.runId)) = false := by decide
+
+theorem merge_rejects_kind (cs : List Chunk) (dt : String) (hlen : 2 ≤ cs.length)
+    (h : allEq (cs.map (·.kind)) = false) : mergeChunks cs dt = .error .valueError :=
+  merge_rejects' hlen (Or.inl h)
+
+theorem merge_rejects_run (cs : List Chunk) (dt : String) (hlen : 2 ≤ cs.length)
+    (h : allEq (cs.map (·.runId)) = false) : mergeChunks cs dt = .error .valueError :=
+  merge_rejects' hlen (Or.inr (Or.inl h))
+
+theorem merge_rejects_length (cs : List Chunk) (dt : String) (hlen : 2 ≤ cs.length)
+    (h : allEq (cs.map (·.rows.length)) = false) : mergeChunks cs dt = .error .valueError :=
+  merge_rejects' hlen (Or.inr (Or.inr (Or.inl h)))
+
+theorem merge_rejects_range (cs : List Chunk) (dt : String) (hlen : 2 ≤ cs.length)
+    (h : allEq (cs.map (fun c => (c.start, c.stop))) = false) : mergeChunks cs dt = .error .valueError :=
+  merge_rejects' hlen (Or.inr (Or.inr (Or.inr h)))
+
+example : allEq ([exChunk, { exChunk with kind := "hits" }].map (·.kind)) = false ∧
+    allEq ([exChunk, { exChunk with runId := none }].map (·.runId)) = false ∧
+    allEq ([exChunk, { exChunk with rows := [] }].map (·.rows.length)) = false ∧
+    allEq ([exChunk, { exChunk with stop := 21 }].map (fun c => (c.start, c.stop))) = false := by decide
+
+/-- a successful merge: all inputs agree on kind, run, length and range; the result keeps them,
+carries the requested data type, the identities (all other columns) of the first chunk and the
+interval columns of the last one -/
+theorem merge_spec (cs : List Chunk) (dt : String) (c : Chunk) (hlen : 2 ≤ cs.length)
+    (h : mergeChunks cs dt = .ok c) :
+    ∃ c0 cl, cs.head? = some c0 ∧ cs.getLast? = some cl ∧
+      (∀ x ∈ cs, x.kind = c0.kind ∧ x.runId = c0.runId ∧ x.rows.length = c0.rows.length ∧
+        x.start = c0.start ∧ x.stop = c0.stop) ∧
+      c.dataType = dt ∧ c.kind = c0.kind ∧ c.runId = c0.runId ∧ c.start = c0.start ∧ c.stop = c0.stop ∧
+      c.rows.length = c0.rows.length ∧ c.rows.map (·.id) = c0.rows.map (·.id) ∧
+      c.rows.map (·.time) = cl.rows.map (·.time) ∧ c.rows.map (·.endt) = cl.rows.map (·.endt) :=
+  merge_spec' hlen h
+
+example : ∃ c, mergeChunks [exChunk, { exChunk with dataType := "peak_basics" }] "merged" = .ok c ∧
+    c.rows = exChunk.rows := by
+  cases h : mergeChunks [exChunk, { exChunk with dataType := "peak_basics" }] "merged" with
+  | error e => revert h; decide
+  | ok c => exact ⟨c, rfl, by revert h; decide⟩
+
+/-- `merge_arrs`: the column `f` of the result is the last entry for `f` in arrival order, i.e.
+it comes from the last array that has `f` -/
+theorem mergeArrs_col (arrs : List Cols) (f : String) :
+    getCol (mergeArrs arrs) f = lastEntry arrs.flatten f :=
+  mergeArrs_col' arrs f
+
+example : getCol (mergeArrs [[("time", [1,2]), ("area", [5,6])], [("time", [3,4]), ("width", [7,8])]]) "time"
+    = some [3,4] := by decide
+
 end Strax.C07
